@@ -14,10 +14,10 @@ def snapshot(o, depth=0):
             return ('ndobj', o.shape, tuple(snapshot(x, depth + 1) for x in o.ravel().tolist()))
         return ('nd', o.dtype.str, o.shape, np.ascontiguousarray(o).tobytes())
     if isinstance(o, pd.DataFrame):
-        return ('df', tuple(map(str, o.columns)), snapshot(np.asarray(o.index), depth + 1), str(o.index.name),
+        return ('df', tuple(map(str, o.columns)), snapshot(np.asarray(o.index), depth + 1), f'{o.index.name}|{o.columns.name}',
                 tuple(snapshot(np.asarray(o[c]), depth + 1) for c in o.columns))
     if isinstance(o, pd.Series):
-        return ('ser', snapshot(np.asarray(o.index), depth + 1), snapshot(np.asarray(o.values), depth + 1), repr(o.name))
+        return ('ser', snapshot(np.asarray(o.index), depth + 1), snapshot(np.asarray(o.values), depth + 1), f'{o.name!r}|{o.index.name}')
     if isinstance(o, pd.Index):
         return ('idx', snapshot(np.asarray(o), depth + 1), str(o.name))
     if isinstance(o, (list, tuple)):
